@@ -317,21 +317,16 @@ def run_history(lib, progs, schedule, rnd):
 
 
 def isolated_references(lib):
-    """result of every concrete call when it is the only library call its (fresh) process ever makes"""
+    """result of every concrete call when it is the only library call its process ever makes (c09_iso --all: one pristine
+    process that has only imported the library, one forked child per call)"""
     import subprocess
-    from concurrent.futures import ThreadPoolExecutor
     keys = [k for lst in lib.calls.values() for (k, fn, fac) in lst]
-    env = dict(os.environ)
-
-    def one(key):
-        p = subprocess.run([sys.executable, "-m", "harness.props.c09_iso", key], stdout=subprocess.PIPE, stderr=subprocess.PIPE,
-                           text=True, env=env, timeout=300)
-        out = p.stdout.strip().split("\t")
-        if p.returncode != 0 or len(out) != 2 or out[0] != key:
-            raise tlc.MachineryError("isolated reference for %s failed: %s %s" % (key, p.stdout[-200:], p.stderr[-300:]))
-        return key, out[1]
-    with ThreadPoolExecutor(max_workers=12) as ex:
-        return dict(ex.map(one, keys))
+    p = subprocess.run([sys.executable, "-m", "harness.props.c09_iso", "--all"], stdout=subprocess.PIPE, stderr=subprocess.PIPE,
+                       text=True, env=dict(os.environ), timeout=900)
+    out = dict(l.split("\t", 1) for l in p.stdout.strip().split("\n") if "\t" in l)
+    if p.returncode != 0 or set(out) != set(keys):
+        raise tlc.MachineryError("isolated references failed: rc=%s got %d of %d keys %s" % (p.returncode, len(out), len(keys), p.stderr[-300:]))
+    return out
 
 
 def pick(lib, cls, rnd, counter):
